@@ -39,9 +39,35 @@ from vkit import metagen, tlc, tracecheck
 
 GMOD, GCFG = "trace/MetaGrammarTrace.tla", "trace/MetaGrammarTrace.cfg"
 DMOD, DCFG = "trace/MetaDeriveTrace.tla", "trace/MetaDeriveTrace.cfg"
-OTHER = "abcdxyzABCXYZ _-:;()/\\e+E[]{}'\"!?%&*#@"
+OTHER = "abcdxyzABCXYZ _-:;()/\\e+E[]{}'\"!?%&*#@\u00b5\u00e9\u00b0"      # (user notes / paths are not always ASCII)
 REAL_GAINS = [50, 125, 250, 500, 1000, 1500, 2000, 3000]
 LONG = 96
+# the same key=value lines as SpikeGLX leaves them on disk: it runs on Windows (5 of the shipped files have CR LF line ends,
+# 2 have no line end after the last line); "raw": the bytes of a shipped file as they are
+FORMS = ("lf", "crlf", "lf-nofinal", "crlf-nofinal")
+# what write_meta_data finds under the name it writes: nothing, a longer file of another recording, or the very file that
+# was parsed ("writing it back")
+DESTS = ("fresh", "stale", "inplace")
+STALE_LINE = "zzLeftOver{i}=9{i},1.5,text of another recording\n"
+
+
+def write_form(f, text, form="lf", raw=None):
+    """writes the lines of `text` in the given file form (text mode without newline translation, default encoding: the
+    encoding the code under test reads with)"""
+    if raw is not None:
+        Path(f).write_bytes(raw)
+        return
+    if form.endswith("nofinal") and text.endswith("\n"):
+        text = text[:-1]
+    if form.startswith("crlf"):
+        text = text.replace("\n", "\r\n")
+    with open(f, "w", newline="") as fid:
+        fid.write(text)
+
+
+def plain_copy(d):
+    """what a parse returned, kept apart from anything a later call may do to the returned object"""
+    return {k: (list(x) if isinstance(x, list) else x) for k, x in d.items()}
 
 
 # ------------------------------------------------------------------------------------------
@@ -90,23 +116,35 @@ def split_line(line):
     return k, val
 
 
-def round_trip(folder, text):
-    """real read -> write -> read of a metadata file with this text"""
+def round_trip(folder, text, form="lf", dest="fresh", aspath=True, raw=None):
+    """real read -> write -> read of a metadata file with this text, in file form `form`, written to a destination in state
+    `dest`, the file names given as Path or str.  d1 is the dictionary as the first parse returned it (a copy taken before
+    write_meta_data and the second parse get to see the object)."""
     import spikeglx
     folder = Path(folder)
     folder.mkdir(parents=True, exist_ok=True)
     f1, f2 = folder / "rt_1.meta", folder / "rt_2.meta"
-    f1.write_text(text)
-    res = {"raised1": False, "exc1": "", "raised2": False, "exc2": "", "d1": None, "d2": None, "text2": ""}
+    write_form(f1, text, form, raw)
+    if dest == "inplace":
+        f2 = f1
+    elif dest == "stale":
+        n = (len(text) + (len(raw) if raw else 0)) // 20 + 50
+        f2.write_text("".join(STALE_LINE.format(i=i) for i in range(n)))
+    elif f2.exists():
+        f2.unlink()
+    a1, a2 = (f1, f2) if aspath else (str(f1), str(f2))
+    res = {"raised1": False, "exc1": "", "raised2": False, "exc2": "", "d1": None, "d2": None, "text2": "",
+           "how": f"file form {form if raw is None else 'as shipped'}, destination {dest}, names as {'Path' if aspath else 'str'}"}
     try:
-        res["d1"] = spikeglx.read_meta_data(f1)
+        d1 = spikeglx.read_meta_data(a1)
+        res["d1"] = plain_copy(d1)
     except Exception as e:
         res["raised1"], res["exc1"] = True, type(e).__name__
         return res
-    spikeglx.write_meta_data(res["d1"], f2)
+    spikeglx.write_meta_data(d1, a2)
     res["text2"] = f2.read_text()
     try:
-        res["d2"] = spikeglx.read_meta_data(f2)
+        res["d2"] = spikeglx.read_meta_data(a2)
     except Exception as e:
         res["raised2"], res["exc2"] = True, type(e).__name__
     return res
@@ -183,8 +221,9 @@ def check_grammar_traces(ctx, texts, results, label):
         if vd["prop"]:
             key, ln = grammar_key(tx, t, vd["prop"])
             ctx.violation(key, f"read -> write -> read of a metadata file ({len(t['lines'])} lines): property-layer clause "
-                          f"{vd['prop']} false" + (f" at line {ln!r}" if ln else "") + (f" ({t['exc']})" if t["exc"] else ""),
-                          {"kind": "grammar", "text": tx})
+                          f"{vd['prop']} false" + (f" at line {ln!r}" if ln else "") + (f" ({t['exc']})" if t["exc"] else "")
+                          + f" [{results[vd['index']].get('how', '')}]",
+                          {"kind": "grammar", "text": tx, **results[vd["index"]].get("scn", {})})
         elif vd["impl"]:
             ctx.spec_drift(f"metadata file ({len(t['lines'])} lines, line {vd['pos']}): step {vd['impl']} is not a step of "
                            f"spec/lib/MetaGrammar.tla (every property-layer formula holds)")
@@ -195,34 +234,46 @@ def check_grammar_traces(ctx, texts, results, label):
 # grammar: spec -> code on the exported cases
 # ------------------------------------------------------------------------------------------
 def replay_exported_grammar(ctx, cases, rnd):
-    """returns (texts, results) of the batch files for the trace direction"""
+    """returns (texts, results, number of violations, indices of the batch files the trace direction must judge)"""
     folder = Path(ctx.scratch) / "c09g"
     safe = [c for c in cases if c["k"] != "raise"]
     unsafe = [c for c in cases if c["k"] == "raise"]
     reps = 1 if ctx.quick else 2
-    texts, results = [], []
+    texts, results, must = [], [], []
     nviol = 0
+    o1, o2, nb = rnd.randrange(len(FORMS)), rnd.randrange(len(DESTS)), 0
     for rep in range(reps):
         rnd.shuffle(safe)
-        for off in range(0, len(safe), 400):
-            part = safe[off:off + 400]
+        # files of values inside the property's domain are kept apart from the others: on them the whole dictionaries must agree
+        parts = []
+        for sel in (True, False):
+            group = [c for c in safe if bool(c["dom"]) == sel]
+            parts += [group[off:off + 400] for off in range(0, len(group), 400)]
+        for part in parts:
             vals = [concretise(c["v"], rnd) for c in part]
             text = "".join(f"k{i:04d}={val}\n" for i, val in enumerate(vals))
-            res = round_trip(folder, text)
+            # every file form x every state of the destination x both spellings of a file name come up (12 | ~100 batches)
+            scn = {"form": FORMS[(nb + o1) % len(FORMS)], "dest": DESTS[(nb // len(FORMS) + o2) % len(DESTS)], "aspath": nb % 5 != 0}
+            nb += 1
+            res = round_trip(folder, text, **scn)
+            res["scn"] = scn
             texts.append(text)
             results.append(res)
+            before = nviol
             if res["raised1"] or res["raised2"]:
                 # a parse raised although no line is expected to: find the line(s)
                 for i, (c, val) in enumerate(zip(part, vals) if nviol < 30 else []):
-                    one = round_trip(folder, f"k={val}\n")
+                    one = round_trip(folder, f"k={val}\n", **scn)
                     if one["raised1"] or one["raised2"]:
                         if c["dom"]:
                             nviol += 1
                             ctx.violation("grammar:roundtrip:raised", f"value {val!r} is in the property's domain and "
                                           f"{'the first' if one['raised1'] else 'the second'} parse raised "
-                                          f"{one['exc1'] or one['exc2']}", {"kind": "grammar", "text": f"k={val}\n"})
+                                          f"{one['exc1'] or one['exc2']} [{one['how']}]", {"kind": "grammar", "text": f"k={val}\n", **scn})
                         else:
                             ctx.spec_drift(f"value {val!r}: a parse raised, the implementation layer does not")
+                if nviol == before:
+                    must.append(len(texts) - 1)         # no single line reproduces it: the file as a whole is judged
                 continue
             d1, d2 = res["d1"], res["d2"]
             written = dict(split_line(ln) for ln in res["text2"].splitlines())
@@ -234,14 +285,16 @@ def replay_exported_grammar(ctx, cases, rnd):
                     cls = "scalar-below-1e-4" if tiny_scalar(val) else kind_of(d1[key])
                     ctx.violation(f"grammar:roundtrip:{cls}",
                                   f"value {val!r} (in the property's domain) parsed as {d1[key]!r}, written as "
-                                  f"{written.get(key)!r}, parsed again as {d2.get(key)!r}: RoundTrip false",
-                                  {"kind": "grammar", "text": f"k={val}\n"})
+                                  f"{written.get(key)!r}, parsed again as {d2.get(key)!r}: RoundTrip false [{res['how']}]",
+                                  {"kind": "grammar", "text": f"k={val}\n", **scn})
                     nviol += 1
                     continue
                 got = (kind_of(d1[key]), absstr(written.get(key, "<missing>")), kind_of(d2.get(key, 0)), bool(eqv))
                 exp = (c["k"], list(c["w"]), c["k2"], c["same"])
                 if got != exp:
                     ctx.spec_drift(f"value {val!r}: real (kind, written, kind2, equal) = {got}, implementation layer {exp}")
+            if nviol == before and part and part[0]["dom"] and d1 != d2:
+                must.append(len(texts) - 1)             # every value came back, the dictionaries differ all the same
         for c in (unsafe if rep == 0 else []):
             val = concretise(c["v"], rnd)
             res = round_trip(folder, f"k={val}\n")
@@ -249,7 +302,7 @@ def replay_exported_grammar(ctx, cases, rnd):
             if not res["raised1"]:
                 ctx.spec_drift(f"value {val!r} (outside the property's domain): the implementation layer raises, the "
                                f"code returned {res['d1'].get('k')!r}")
-    return texts, results, nviol
+    return texts, results, nviol, must[:20]
 
 
 # ------------------------------------------------------------------------------------------
